@@ -341,13 +341,18 @@ Definition nodes_covered (nodes down : list N) (frs : list frame) : bool :=
    and it had not run to its end; gate open: fibers that ended with an ignorable error may have been
    waiting for the next timer tick), the call returned no earlier than [tmo] after it started, and no frame arrives more than
    [margin] after it returned. *)
+(* the property on the frames of a request whose caller got RequestTimeout: after the call has given
+   up nothing is sent any more -- no frame arrives more than [margin] after the call returned *)
+Definition prop_timeout_frames (tret margin : N) (frs : list frame) : bool :=
+  forallb (fun f => f_arr f <=? tret + margin) frs.
+
 Definition check_timeout (p : policy) (idem : bool) (spec : option nat) (cl0 : consistency)
            (nodes down : list N) (cs : list cert) (assign : list nat) (frs : list frame)
            (t0 tmo tret margin : N) : bool :=
   multi_ok p idem cl0 nodes down (match gate_open idem spec with Some m => m | None => 0%nat end)
            cs assign frs
   && (t0 + tmo <=? tret)
-  && forallb (fun f => f_arr f <=? tret + margin) frs
+  && prop_timeout_frames tret margin frs
   && (* gate closed: the one fiber had not run to its end (it would have returned its result) *)
      match gate_open idem spec with
      | Some _ => true
